@@ -83,6 +83,15 @@ theorem convert_rows {db : Db} (hdb : ∀ r ∈ db.units, r.WF) {u w : Sym} {ru 
     simp only [h2]
     exact convRows_eq wu ww x
 
+/-- the base increment of a well-formed row is its slope -/
+theorem baseIncrement_eq {r : UnitRow} (h : r.WF) : baseIncrement r = .ok (rowSlope r) := by
+  unfold baseIncrement rowSlope
+  have tr := h.tr
+  simp only [h.ok, Bool.not_true, Bool.false_eq_true, ↓reduceIte, h.to_apply]
+  congr 1
+  field_simp
+  ring
+
 /-- `_ConvertMatchingExp` on two such units: the plain (affine) conversion for the same unit and for
 exponent 1 outside a derived operand, otherwise a scaling by the ratio of the slopes raised to the exponent
 (for exponent 1 without offset the plain conversion IS that scaling); it never fails -/
@@ -120,15 +129,32 @@ theorem convertMatchingExp_rows {db : Db} (hdb : ∀ r ∈ db.units, r.WF) {u w 
         · have := hz he; simp [he, this]
         · simp [he]
       simp only [this, Bool.false_eq_true, ↓reduceIte]
-      rw [convert_rows hdb hu hw hq 1]
-      simp only
-      have e : convVal ru rw 1 - convVal ru rw 0 = rowSlope ru / rowSlope rw := by
-        rw [convVal_affine wu ww 1]; ring
-      rw [e]
-      unfold scaleByPow
       have hne : rowSlope ru / rowSlope rw ≠ 0 :=
         div_ne_zero (ne_of_gt (rowSlope_pos wu)) (ne_of_gt (rowSlope_pos ww))
-      simp [hne, zpowR_eq]
+      by_cases h0 : convVal ru rw 0 = 0
+      · -- no offset between the two units: the ratio is Convert(1.0)
+        have : (convVal ru rw 0 == 0) = true := by simp [h0]
+        simp only [this, ↓reduceIte]
+        rw [convert_rows hdb hu hw hq 1]
+        simp only
+        have e : convVal ru rw 1 = rowSlope ru / rowSlope rw := by
+          rw [convVal_affine wu ww 1, h0]; ring
+        rw [e]
+        unfold scaleByPow
+        simp [hne, zpowR_eq]
+      · -- an offset: the quotient of the base increments of the two rows
+        have : (convVal ru rw 0 == 0) = false := by simpa using h0
+        simp only [this, Bool.false_eq_true, ↓reduceIte]
+        have hr : ratioByIncrements db ru.qtype u w = .ok (rowSlope ru / rowSlope rw) := by
+          unfold ratioByIncrements
+          have g2 := getInfo_of_row hw.row false true
+          rw [hq] at g2
+          simp only [getInfo_of_row hu.row false true, g2, baseIncrement_eq wu, baseIncrement_eq ww]
+          simp [ne_of_gt (rowSlope_pos ww)]
+        rw [hr]
+        simp only
+        unfold scaleByPow
+        simp [hne, zpowR_eq]
 
 /-- inside a derived operand, for an exponent other than 1, and for units without offset, every step is
 the scaling -/
